@@ -101,6 +101,10 @@ func (c *Ctx) c04Sibling(fo *FO) {
 						d, t := c.pathDetail(fo, p, "lock operation on a lock other than the keyLocks mutex: "+ev.String())
 						r.Bad("R04.3", cons, "foreign-lock", c.Pos(ev.Pos), d, t)
 					}
+					if ev.Op == "Unlock" && ev.Path == fo.LockPath && !ls[i].Has(fo.LockPath, false) {
+						d, t := c.pathDetail(fo, p, "the keyLocks mutex is unlocked without being held (fatal error: sync: unlock of unlocked mutex)")
+						r.Bad("R04.3", cons, "unlock-unheld", c.Pos(ev.Pos), d, t)
+					}
 					if ev.Op == "Lock" && ls[i].Has(fo.LockPath, false) {
 						d, t := c.pathDetail(fo, p, "lock acquired while already held (self-deadlock)")
 						r.Bad("R04.3", cons, "relock", c.Pos(ev.Pos), d, t)
